@@ -106,7 +106,9 @@ FailStates(s, stmt) ==
   \* a rejected seed: no gradient is written, but the traversal has already dropped the stale gradients upstream
   \* (dropped handles included: a tensor the program no longer names may still be the base a live view reads its gradient from)
   THEN LET vis == {h \in AllH(s) : s.H[h].node \in UpDiff(s, s.H[stmt.h].node)} IN
-       {s0, [s0 EXCEPT !.g = [h \in DOMAIN @ |-> IF h \in vis /\ s.H[h].base = 0 THEN None ELSE @[h]]]}
+       \* (and the cached view-gradients of the views it passed: a disconnected view then shows nothing)
+       {s0, [s0 EXCEPT !.g = [h \in DOMAIN @ |-> IF h \in vis /\ s.H[h].base = 0 THEN None ELSE @[h]],
+                       !.H = [h \in DOMAIN @ |-> IF h \in vis /\ s.H[h].base # 0 THEN [@[h] EXCEPT !.gc = 0] ELSE @[h]]]}
   ELSE {s0}
 
 TInit == tid \in 1..Len(Traces) /\ l = 1 /\ st = InitSt /\ verdict = "ok"
